@@ -50,6 +50,7 @@ def run(ctx):
         _kinds(ctx, version)
         _structure(ctx, version)
     _actions(ctx)
+    _zinc.token_use_rule(ctx, 'C03.D2', 'zincparser')
     _escape_table(ctx)
     _framing(ctx)
     from . import _parse
@@ -58,6 +59,7 @@ def run(ctx):
     # timestamps with a zone name denote the written instant (clause shared with C17.D2)
     from . import c17
     c17._api(ctx, ctx.model, rule='C03.D5', only=('zincparser',))
+    c17.zone_applied(ctx, ctx.model, 'C03.D5', 'zincparser', '_parse_datetime', 'zinc')
 
 
 def _kinds(ctx, version):
@@ -255,6 +257,14 @@ def _escape_table(ctx):
         ctx.error('C03.D1', '_unescape: %s' % e)
         return
     where = '%s:%d' % (FP, sp.fn.lineno)
+    if getattr(sp, 'loop_exits', None):
+        ex = sp.loop_exits[0]
+        ctx.violation('C03.D1', '%s::_unescape' % FP, norm(ex),
+                      'the well-formed string "a\\u00e9b" is read as "a\u00e9": the scanning loop leaves with `%s` after an escape '
+                      'and drops the rest of the literal' % norm(ex),
+                      'a branch of the escape decoder ends the scan instead of going on with the rest of the text', file=FP,
+                      line=ex.lineno, engine='E5')
+        return
     for uri, table in ((False, ESCAPES_STR), (True, ESCAPES_URI)):
         for esc, want in sorted(table.items()):
             text = sp.bs + esc
@@ -278,7 +288,16 @@ def _escape_table(ctx):
                 out, _ = T.decode_char(sp, text, False)
             except ValueError as e:
                 out = 'error %s' % e
-            if out == chr(cp):
+            try:
+                ctxout, _ = T.decode_char(sp, 'a' + text + '0Z', False)
+            except ValueError as e:
+                ctxout = 'error %s' % e
+            if out == chr(cp) and ctxout != 'a' + chr(cp) + '0Z':
+                ctx.violation('C03.D1', '%s::_unescape' % FP, '\\uXXXX in context',
+                              'the string "a\\u%04x0Z" decodes to %r instead of %r: the decoder does not take exactly four hex '
+                              'digits / six characters for the escape' % (cp, ctxout, 'a' + chr(cp) + '0Z'),
+                              '_unescape does not consume exactly \\uXXXX', file=FP, line=sp.fn.lineno, engine='E5')
+            elif out == chr(cp):
                 ctx.ob('C03.D1', '\\u%04x denotes U+%04X' % (cp, cp), True, where)
             else:
                 ctx.violation('C03.D1', '%s::_unescape' % FP, '\\uXXXX', 'the string "\\u%04x" decodes to %r' % (cp, out),
@@ -407,6 +426,16 @@ def _framing(ctx):
     # (iv) single / multiple (path-based; shared with C09.D5 / C05.D2)
     from . import _parse
     try:
+        args_ = pp.args
+        names_ = [a.arg for a in args_.args]
+        defs_ = dict(zip(names_[len(names_) - len(args_.defaults):], args_.defaults))
+        if 'single' in defs_ and norm(defs_['single']) == 'True':
+            ctx.ob('C03.D3', 'parse(..., single=True) is the default: one grid is returned unless asked otherwise', True, where)
+        elif 'single' in defs_:
+            ctx.violation('C03.D3', '%s::parse' % FR, 'single=%s' % norm(defs_['single']),
+                          'hszinc.parse(doc) on a one-grid document returns a list instead of the grid',
+                          'the default of `single` is %s, documented True' % norm(defs_['single']), file=FR,
+                          line=pp.lineno, engine='E9')
         r = _parse.result_shaping(m)
         good = r['single_nonempty'] <= {'FIRST', 'FIRST1'} and r['single_nonempty'] and r['single_empty'] == {'NONE'} \
             and r['multi'] == {'ALL'}
